@@ -187,14 +187,132 @@ def _d4(chk, fb):
                             witness={"history": "compute two products into the same output matrix"})
 
 
+def _fwd_reaches(fun, a, b):
+    """statement b can execute after statement a in the same pass (forward edges only)"""
+    cfg = fun.cfg
+    pos = fun._rpo()
+    ba, bb = cfg.stmt_block(a), cfg.stmt_block(b)
+    if ba is None or bb is None:
+        return True
+    if ba == bb:
+        return True
+    seen, todo = {ba}, [ba]
+    while todo:
+        x = todo.pop()
+        for s_ in cfg.succ[x]:
+            if s_ not in seen and pos.get(s_, -1) > pos.get(x, -1):
+                if s_ == bb:
+                    return True
+                seen.add(s_)
+                todo.append(s_)
+    return False
+
+
+def _d5(chk, fb):
+    """a vector operand that enters one output entry through several statements (first term, interior loop, last term of the
+    tridiagonal product) must be read at pairwise disjoint index sets that together cover the vector, for every shape"""
+    from . import e2
+    import itertools
+    S = e2.sp()
+    n_groups = 0
+    for f in sorted(_kernels(fb), key=lambda x: x.key):
+        fun = e2.Fun(fb, f)
+        groups = {}
+        for c, cont, idxs, kind in e2.sites(fun):
+            if kind != "vector" or len(idxs) != 1:
+                continue
+            r = fun.root(cont)
+            if r is None or r[0] != "v" or not any(p_["id"] == r[1] for p_ in f.params):
+                continue
+            st = None
+            for a in f.ancestors(c):
+                if a["k"] in ("BinaryOperator", "CompoundAssignOperator") and a.get("op") in ("=", "+=", "-="):
+                    lhs = strip(kids(a)[0])
+                    if is_call(lhs) and lhs["callee"]["name"] == "operator()" and f.contains(kids(a)[1], c):
+                        st = a
+                        break
+            if st is None:
+                continue
+            groups.setdefault((render(kids(st)[0]), r[2]), []).append((c, idxs[0], st))
+        for (tgt, vname), sites_ in sorted(groups.items()):
+            if len({st["id"] for _, _, st in sites_}) < 2:
+                continue
+            n_groups += 1
+            info = []
+            for c, idx, st in sites_:
+                b = fun.index_bounds(idx, c)
+                rels, unparsed = fun.facts(c)
+                cl, why = fun.control(c)
+                info.append((c, idx, st, b, rels, unparsed, cl, why))
+            dimv = fun.dims(sites_[0][0] and f.obj(sites_[0][0]), sites_[0][0])
+            # pairwise disjointness
+            for (a, b_) in itertools.combinations(info, 2):
+                if a[2]["id"] == b_[2]["id"]:
+                    continue
+                construct = "partition:%s:%s[%s]|%s[%s]" % (tgt, vname, render(a[1]), vname, render(b_[1]))
+                if a[3] is None or b_[3] is None:
+                    chk.unknown("D5", f.key, construct, f.loc(a[0]), "index not a size/loop expression")
+                    continue
+                rels = list(a[4]) + [r for r in b_[4] if str(r) not in {str(x) for x in a[4]}]
+                sl = e2._slacks(S, rels)
+                (lo1, hi1, lp1), (lo2, hi2, lp2) = a[3], b_[3]
+                g1 = e2._apply_eqs(S, lo2 - hi1 - 1, rels)
+                g2 = e2._apply_eqs(S, lo1 - hi2 - 1, rels)
+                if e2._nonneg_with(S, g1, sl) or e2._nonneg_with(S, g2, sl):
+                    chk.proved("D5", f.key, construct, f.loc(a[0]), "index sets [%s, %s] and [%s, %s] are disjoint under the guards of both statements" % (lo1, hi1, lo2, hi2))
+                    continue
+                if a[5] or b_[5] or a[7] or b_[7]:
+                    chk.unknown("D5", f.key, construct, f.loc(a[0]), "guards of the statements not interpretable")
+                    continue
+                if not (_fwd_reaches(fun, a[2], b_[2]) or _fwd_reaches(fun, b_[2], a[2])):
+                    chk.proved("D5", f.key, construct, f.loc(a[0]), "the two statements lie on exclusive branches")
+                    continue
+                loops = dict(a[6]); loops.update(b_[6]); loops.update(lp1); loops.update(lp2)
+                el = e2._elimination(S, rels)
+
+                def red(x):
+                    for sym, val in el:
+                        x = x.subs(sym, val)
+                    return x
+                rels = [y for y in (red(r) for r in rels) if y is not S.true] + [S.Ge(val_, 0) for val_ in (red(v) for _, v in el) if not e2._nonneg_poly(S, val_)]
+                loops = {k: (red(x), red(y)) for k, (x, y) in loops.items()}
+                lo1, hi1, lo2, hi2 = red(lo1), red(hi1), red(lo2), red(hi2)
+                syms = sorted(set().union(*[r.free_symbols for r in rels]) | set().union(*[(x - y).free_symbols for x, y in loops.values()]) |
+                              (lo1 + hi1 + lo2 + hi2).free_symbols, key=str)
+                wit = None
+                if len(syms) <= 6:
+                    for vals in itertools.product(range(0, 4), repeat=len(syms)):
+                        env = dict(zip(syms, vals))
+                        try:
+                            if not all(bool(r.subs(env)) for r in rels):
+                                continue
+                            if not all((y - x).subs(env) > 0 for x, y in loops.values()):
+                                continue
+                            l1, h1, l2, h2 = [int(v.subs(env)) for v in (lo1, hi1, lo2, hi2)]
+                        except Exception:
+                            continue
+                        if max(l1, l2) <= min(h1, h2):
+                            wit = (env, max(l1, l2))
+                            break
+                if wit:
+                    chk.refuted("D5", f.key, construct, f.loc(a[0]),
+                                "%s: %s[%d] enters %s through two statements (lines %s and %s) on a shape the guards allow, so that term is counted twice" % (
+                                    f.name, vname, wit[1], tgt, a[2].get("l"), b_[2].get("l")), witness={"shape": {str(k): int(v) for k, v in wit[0].items()}})
+                else:
+                    chk.unknown("D5", f.key, construct, f.loc(a[0]), "neither proved disjoint nor a doubly used entry found")
+    chk.floor("D5", "vector operands read by several statements of one accumulation", n_groups, 3)
+
+
 def run(chk, fb, tier):
     chk.rule("D1", "E2 SymBounds on every MatrixTools kernel: index bounds vs dimensions from resize/guards; witness shape required to refute")
     chk.rule("D2", "const/non-const operator() of each storage class return the same element; LinearMatrix::resize_ assigns rows_ and cols_ on every path; flat layout i*cols_+j")
     chk.rule("D3", "no implicit FloatingToIntegral cast in MatrixTools kernels")
+    chk.rule("D5", "reduction index partition: a vector operand read by several statements accumulating into one output entry is read at pairwise disjoint index sets (symbolic proof under the statements' guards; witness shape to refute)")
     chk.rule("D4", "max/whichMax start from -inf, min/whichMin from +inf; mult zeroes O(i,j) before accumulating")
     _d1(chk, fb)
     _d2(chk, fb)
     _d3(chk, fb)
     _d4(chk, fb)
+    _d5(chk, fb)
     chk.note("skipped in D1 (data-dependent indices): %s" % KNOWN_SKIPS)
     chk.assume("kernels are analysed for RowMatrix<double>; the Matrix interface is the same for the other storage classes (D2 checks their accessors)")
